@@ -606,3 +606,61 @@ def shifted_index(ctx, P, scope, rule="SHIFTED-INDEX", tus=None):
                            "%s[%s…] uses the raw counter while %s[…] uses the shifted index %s" % (ks["raw"][0], j, ks["shifted"][0], shifted))
                 kk += 1
     return n
+
+
+def discrete_flags(ctx, P, rule="DISCRETE-FLAGS", floor=6):
+    from sa.expr import strip, walk, estr, callee, is_assign
+    ctx.rule(rule, "the discrete_genome / discrete_time flags (which choose the default precision of the Newick / Nexus writers) are "
+                   "folded from the right accumulator at the right time: `self->discrete_genome = self->discrete_genome && L` where "
+                   "L accumulates is_discrete() of coordinates only (left, right, position, tree ends), `self->discrete_time = "
+                   "self->discrete_time && T` where T accumulates is_discrete() of times only, and no accumulation of L / T follows "
+                   "the fold (the last tree's right end – the sequence length – is part of L)")
+    tu = P.tus["trees"]
+    n = 0
+
+    def kind_of(arg):
+        t = re.sub(r"\[[^\]]*\]", "", arg)
+        if re.search(r"time", t):
+            return "time"
+        if re.search(r"left|right|position|breakpoint", t):
+            return "genome"
+        return None
+    for fn in tu.funcs.values():
+        if fn.body is None:
+            continue
+        folds = []
+        for x in walk(fn.body):
+            if is_assign(x) and estr(strip(x.kids[0])) in ("self->discrete_genome", "self->discrete_time"):
+                folds.append(x)
+        for x in folds:
+            flag = estr(strip(x.kids[0])).split("->")[1]
+            r = strip(x.kids[1])
+            if r is None or r.k != "BinaryOperator" or r.op != "&&":
+                continue        # initialisation (`= true`)
+            ops = [estr(r.kids[0]), estr(r.kids[1])]
+            n += 1
+            key = "%s|%s" % (fn.name, flag)
+            if "self->" + flag not in ops:
+                ctx.ob(rule, key, False, tu.loc(x), "`%s` does not fold into the previous value of %s" % (estr(x), flag))
+                continue
+            acc = [o for o in ops if o != "self->" + flag][0]
+            # accumulations of acc
+            kinds, last = set(), None
+            for y in walk(fn.body):
+                if is_assign(y) and estr(strip(y.kids[0])) == acc:
+                    for c in walk(y.kids[1]):
+                        if c.k == "CallExpr" and callee(c) == "is_discrete":
+                            kinds.add(kind_of(estr(c.kids[1])))
+                            last = y if last is None or y.b > last.b else last
+            want = "genome" if flag == "discrete_genome" else "time"
+            if kinds != {want}:
+                ctx.ob(rule, key, False, tu.loc(x), "%s is folded from `%s`, which accumulates is_discrete() of %s values (want %s only)"
+                       % (flag, acc, sorted(str(k_) for k_ in kinds) or "no", want))
+                continue
+            if last is not None and last.b > x.b:
+                ctx.ob(rule, key, False, tu.loc(last), "`%s` is still being accumulated after it was folded into %s: the last value "
+                       "(the right end of the last tree) never reaches the flag" % (acc, flag))
+                continue
+            ctx.ob(rule, key, True, tu.loc(x), "%s &&= %s, which accumulates is_discrete() of %s values; folded last" % (flag, acc, want))
+    ctx.floor(rule, floor)
+    return n
